@@ -63,12 +63,55 @@ func vModelHead(br *bufio.Reader, prefix string) error {
 	}
 }
 
+// The response model reads the head, takes the status code and a declared Content-Length from
+// it and hands out a body of at most that many of the bytes that follow (to the end of the stream
+// when no length is declared) -- what net/http does for responses that are not chunked.
 func vModel_net_http_ReadResponse(br *bufio.Reader, req *http.Request) (*http.Response, error) {
-	if err := vModelHead(br, "HTTP/"); err != nil {
-		return nil, err
+	status, cl := 0, int64(-1)
+	first := true
+	for {
+		line, err := br.ReadSlice('\n')
+		if err != nil {
+			return nil, io.ErrUnexpectedEOF
+		}
+		if first {
+			if len(line) < 12 || string(line[:5]) != "HTTP/" {
+				return nil, io.ErrUnexpectedEOF
+			}
+			for _, c := range line[9:12] {
+				status = status*10 + int(c-'0')
+			}
+			first = false
+			continue
+		}
+		if len(line) <= 2 {
+			break
+		}
+		if len(line) > 16 && string(line[:16]) == "Content-Length: " {
+			cl = 0
+			for _, c := range line[16:] {
+				if c >= '0' && c <= '9' {
+					cl = cl*10 + int64(c-'0')
+				}
+			}
+		}
 	}
-	return &http.Response{StatusCode: 101, Body: http.NoBody}, nil
+	resp := &http.Response{StatusCode: status, ContentLength: cl, Body: http.NoBody}
+	if status/100 == 1 || status == 204 || status == 304 {
+		resp.ContentLength = 0
+		return resp, nil
+	}
+	if cl < 0 {
+		resp.Body = vBody{br}
+	} else if cl > 0 {
+		resp.Body = vBody{io.LimitReader(br, cl)}
+	}
+	return resp, nil
 }
+
+type vBody struct{ io.Reader }
+
+func (vBody) Close() error { return nil }
 
 func vModel_net_http_ReadRequest(br *bufio.Reader) (*http.Request, error) {
 	if err := vModelHead(br, "GET "); err != nil {
